@@ -113,12 +113,31 @@ func (u *U) EngineError(format string, a ...any) {
 	u.rep.EngineErrors = append(u.rep.EngineErrors, fmt.Sprintf(format, a...))
 }
 func (u *U) Violation(sig, msg, detail, params string) {
+	same := 0
+	for _, v := range u.rep.Violations {
+		if v.Signature == sig {
+			same++
+		}
+	}
+	u.Count("violations "+sig, 1)
+	if same >= 3 {
+		return // keep a few examples per signature, count the rest
+	}
 	if len(u.rep.Violations) < 20 {
 		u.rep.Violations = append(u.rep.Violations, explore.Violation{Signature: sig, Message: msg, Detail: detail, Params: params})
 	}
 }
 func (u *U) Violations() int { return len(u.rep.Violations) }
-func (u *U) Expired() bool   { return !u.Deadline.IsZero() && time.Now().After(u.Deadline) }
+
+// Signatures is the number of distinct violation signatures recorded so far.
+func (u *U) Signatures() int {
+	m := map[string]bool{}
+	for _, v := range u.rep.Violations {
+		m[v.Signature] = true
+	}
+	return len(m)
+}
+func (u *U) Expired() bool { return !u.Deadline.IsZero() && time.Now().After(u.Deadline) }
 
 // Explore runs the deviation-bounded search over exec and merges its statistics.
 func (u *U) Explore(b explore.Bound, params string, exec func(ctl *explore.Ctl) explore.Result) explore.Stats {
